@@ -439,9 +439,9 @@ func checkC14(w *World, c *Check, tier string) {
 	stripsFragment := false
 	for _, f := range clos {
 		for _, call := range callsIn(f) {
-			if cal := call.Common().StaticCallee(); cal != nil && cal.Object() != nil && cal.Object().Pkg() != nil && cal.Object().Pkg().Path() == "strings" && strings.HasPrefix(cal.Name(), "Index") {
+			if cal := call.Common().StaticCallee(); cal != nil && cal.Object() != nil && cal.Object().Pkg() != nil && cal.Object().Pkg().Path() == "strings" && (strings.HasPrefix(cal.Name(), "Index") || cal.Name() == "Cut" || cal.Name() == "SplitN") {
 				for _, a := range call.Common().Args {
-					if s, ok := constString(a); ok && s == "#" {
+					if s, ok := constSeparator(a); ok && s == "#" {
 						stripsFragment = true
 					}
 				}
@@ -463,7 +463,7 @@ func checkC14(w *World, c *Check, tier string) {
 			}
 			sep := ""
 			for _, a := range call.Common().Args {
-				if s, ok := constString(a); ok && (s == "://" || s == "#" || s == ":") {
+				if s, ok := constSeparator(a); ok && (s == "://" || s == "#" || s == ":") {
 					sep = s
 				}
 			}
@@ -602,9 +602,18 @@ func checkC14Relation(w *World, c *Check, eq *ssa.Function, clos []*ssa.Function
 	// a nest 'for x in A { for y in B { x == y } }' (each value of one side looked up in the other) is containment in one
 	// direction, which is neither symmetric nor multiset equality once a value repeats
 	if ie != nil {
-		loops := loopHeaders(ie)
+		// the comparison may live in helpers of irisEqual (queriesEqual, sameValues …): look at its whole package closure
+		qfns := w.Reach([]*ssa.Function{ie}, func(f *ssa.Function) bool { return f.Name() == "Equals" || f.Name() == "ItemsEqual" })
+		loops := map[*ssa.BasicBlock]map[*ssa.BasicBlock]bool{}
+		var qblocks []*ssa.BasicBlock
+		for _, qf := range qfns {
+			for b, hs := range loopHeaders(qf) {
+				loops[b] = hs
+			}
+			qblocks = append(qblocks, qf.Blocks...)
+		}
 		nested := ""
-		for _, b := range ie.Blocks {
+		for _, b := range qblocks {
 			for _, in := range b.Instrs {
 				bo, ok := in.(*ssa.BinOp)
 				if !ok || (bo.Op != token.EQL && bo.Op != token.NEQ) || !isStringish(bo.X.Type()) {
@@ -626,15 +635,17 @@ func checkC14Relation(w *World, c *Check, eq *ssa.Function, clos []*ssa.Function
 		sorted := 0
 		pairwise := false
 		counting := false
-		for _, call := range callsIn(ie) {
-			if cal := call.Common().StaticCallee(); cal != nil && cal.Object() != nil && cal.Object().Pkg() != nil {
-				full := cal.Object().Pkg().Path() + "." + cal.Name()
-				if full == "sort.Strings" || full == "slices.Sort" || full == "sort.Slice" || full == "sort.Sort" || full == "slices.SortFunc" {
-					sorted++
+		for _, qf := range qfns {
+			for _, call := range callsIn(qf) {
+				if cal := call.Common().StaticCallee(); cal != nil && cal.Object() != nil && cal.Object().Pkg() != nil {
+					full := cal.Object().Pkg().Path() + "." + cal.Name()
+					if full == "sort.Strings" || full == "slices.Sort" || full == "sort.Slice" || full == "sort.Sort" || full == "slices.SortFunc" {
+						sorted++
+					}
 				}
 			}
 		}
-		for _, b := range ie.Blocks {
+		for _, b := range qblocks {
 			for _, in := range b.Instrs {
 				switch x := in.(type) {
 				case *ssa.BinOp:
